@@ -570,31 +570,36 @@ func check(c Case) hx.Verdict {
 	if v := crash(o, expr, c.Doc); v != nil {
 		return *v
 	}
-	if got == nil {
-		return hx.Bad("", "assignment failed (%s) where the laws define a result: expr=%s doc=%s", o.Err, expr, c.Doc)
-	}
-	if !model.EqualTol(got, exp, 1e-12) {
-		sig := ""
-		if c.VPath != nil {
-			// known finding: the right-hand side is read after the left-hand side's missing spine was
-			// created, and again after each earlier match was written; it only shows when the region v
-			// reads overlaps a path that is written
-			for _, m := range M {
-				n := len(m.p)
-				if len(c.VPath) < n {
-					n = len(c.VPath)
-				}
-				overlap := true
-				for k := 0; k < n; k++ {
-					if m.p[k] != c.VPath[k] {
-						overlap = false
-					}
-				}
-				if overlap {
-					sig = "deviant:rhs-read-after-write"
+	// known finding: the right-hand side is read after the left-hand side's missing spine was created, and
+	// again after each earlier match was written; it only shows when the region v reads overlaps a path that
+	// is written (as another value, or as a failure of the second read: `.[] = .[0].a` re-reads .[0].a after
+	// .[0] has become the value)
+	overlapSig := func() string {
+		if c.VPath == nil {
+			return ""
+		}
+		for _, m := range M {
+			n := len(m.p)
+			if len(c.VPath) < n {
+				n = len(c.VPath)
+			}
+			overlap := true
+			for k := 0; k < n; k++ {
+				if m.p[k] != c.VPath[k] {
+					overlap = false
 				}
 			}
+			if overlap {
+				return "deviant:rhs-read-after-write"
+			}
 		}
+		return ""
+	}
+	if got == nil {
+		return hx.Bad(overlapSig(), "assignment failed (%s) where the laws define a result: expr=%s doc=%s", o.Err, expr, c.Doc)
+	}
+	if !model.EqualTol(got, exp, 1e-12) {
+		sig := overlapSig()
 		return hx.Bad(sig, "put/frame: result %s differs from expected %s: expr=%s doc=%s", got.JSON(), exp.JSON(), expr, c.Doc)
 	}
 	if c.Form == "assign" && len(M) > 0 {
